@@ -29,4 +29,97 @@ static const void *get_setup_template(long ch, long srate, double req, int q_or_
   ;
 #undef TPL
 #endif
+
+#ifdef VERIF_UNIT_CTL
+#define TPL ((const ve_setup_data_template *)RV)
+#define CI_OF(vi) ((codec_setup_info *)(vi)->codec_setup)
+#define HI_OF(vi) (&CI_OF(vi)->hi)
+/* callee contracts (get_setup_template is proved against the stronger form in unit enc_template) */
+static const void *get_setup_template(long ch, long srate, double req, int q_or_bitrate, double *base_setting)
+  __CPROVER_requires(__CPROVER_rw_ok(base_setting, sizeof(double)))
+  __CPROVER_assigns(*base_setting)
+  __CPROVER_ensures(RV == NULL || (FRESH(RV, sizeof(ve_setup_data_template)) && TPL->mappings >= 1 && (int)*base_setting >= 0 &&
+                                   *base_setting < 64. && (long)(int)*base_setting + 1 <= TPL->mappings && *base_setting > -1.0));
+/* what vorbis_encode_setup_setting needs: a template and a base setting whose
+   integer part and its successor index the per-quality tables */
+static void vorbis_encode_setup_setting(vorbis_info *vi, long channels, long rate)
+  __CPROVER_requires(HI_OF(vi)->setup != NULL && HI_OF(vi)->base_setting > -1. && HI_OF(vi)->base_setting < 64. &&
+                     (int)HI_OF(vi)->base_setting >= 0 &&
+                     (long)(int)HI_OF(vi)->base_setting + 1 <= ((const ve_setup_data_template *)HI_OF(vi)->setup)->mappings)
+  __CPROVER_assigns(vi->version, vi->channels, vi->rate, HI_OF(vi)->impulse_block_p, HI_OF(vi)->noise_normalize_p,
+                    HI_OF(vi)->stereo_point_setting, HI_OF(vi)->lowpass_kHz, HI_OF(vi)->ath_floating_dB, HI_OF(vi)->ath_absolute_dB,
+                    HI_OF(vi)->amplitude_track_dBpersec, HI_OF(vi)->trigger_setting, HI_OF(vi)->block);
+
+/* ghost snapshot of the settings the control interface may change */
+#define O_(f) OLD(HI_OF(vi)->f)
+#define OP_(f) OLD(HI_OF(vi)->f)
+#define HI_SAME(vi) (HI_OF(vi)->managed == O_(managed) && HI_OF(vi)->bitrate_min == O_(bitrate_min) && \
+   HI_OF(vi)->bitrate_max == O_(bitrate_max) && HI_OF(vi)->bitrate_av == O_(bitrate_av) && \
+   HI_OF(vi)->bitrate_reservoir == O_(bitrate_reservoir) && HI_OF(vi)->coupling_p == O_(coupling_p) && \
+   HI_OF(vi)->lowpass_altered == O_(lowpass_altered) && HI_OF(vi)->setup == OP_(setup) && \
+   HI_OF(vi)->set_in_stone == O_(set_in_stone))
+#define A2 ((struct ovectl_ratemanage2_arg *)arg)
+#define KNOWN_REQ(n) ((n) == OV_ECTL_RATEMANAGE_GET || (n) == OV_ECTL_RATEMANAGE_SET || (n) == OV_ECTL_RATEMANAGE_AVG || \
+   (n) == OV_ECTL_RATEMANAGE_HARD || (n) == OV_ECTL_RATEMANAGE2_GET || (n) == OV_ECTL_RATEMANAGE2_SET || \
+   (n) == OV_ECTL_LOWPASS_GET || (n) == OV_ECTL_LOWPASS_SET || (n) == OV_ECTL_IBLOCK_GET || (n) == OV_ECTL_IBLOCK_SET || \
+   (n) == OV_ECTL_COUPLING_GET || (n) == OV_ECTL_COUPLING_SET)
+/* requests that dereference arg without a NULL test: API precondition */
+#define NEEDS_ARG(n) ((n) == OV_ECTL_RATEMANAGE_GET || (n) == OV_ECTL_LOWPASS_GET || (n) == OV_ECTL_LOWPASS_SET || \
+   (n) == OV_ECTL_IBLOCK_GET || (n) == OV_ECTL_IBLOCK_SET || (n) == OV_ECTL_COUPLING_GET || (n) == OV_ECTL_COUPLING_SET)
+
+int vorbis_encode_ctl(vorbis_info *vi, int number, void *arg)
+  /* vi == NULL (answered OV_EINVAL) is decided in unit enc_ctl_null; OLD() cannot be guarded */
+  __CPROVER_requires(vi != NULL && __CPROVER_rw_ok(vi, sizeof(*vi)) && __CPROVER_rw_ok(vi->codec_setup, sizeof(codec_setup_info)) && vi->rate >= 1)
+  __CPROVER_requires(arg == NULL || __CPROVER_rw_ok(arg, sizeof(struct ovectl_ratemanage_arg)))
+  __CPROVER_requires(NEEDS_ARG(number) ==> arg != NULL)
+  /* application-supplied rates are below 2^40 (kbps*1000 and sums do not wrap) */
+#define AR ((struct ovectl_ratemanage_arg *)arg)
+#define SMALL(x) ((x) > -(1L << 40) && (x) < (1L << 40))
+  __CPROVER_requires((arg != NULL && number == OV_ECTL_RATEMANAGE2_SET) ==> (SMALL(A2->bitrate_limit_min_kbps) && SMALL(A2->bitrate_limit_max_kbps) && SMALL(A2->bitrate_average_kbps)))
+  __CPROVER_requires((arg != NULL && (number == OV_ECTL_RATEMANAGE_SET || number == OV_ECTL_RATEMANAGE_AVG || number == OV_ECTL_RATEMANAGE_HARD)) ==>
+                     (SMALL(AR->bitrate_av_lo) && SMALL(AR->bitrate_av_hi) && SMALL(AR->bitrate_hard_min) && SMALL(AR->bitrate_hard_max)))
+#define IS_GET(n) ((n) == OV_ECTL_RATEMANAGE_GET || (n) == OV_ECTL_RATEMANAGE2_GET || (n) == OV_ECTL_LOWPASS_GET || \
+   (n) == OV_ECTL_IBLOCK_GET || (n) == OV_ECTL_COUPLING_GET)
+  __CPROVER_assigns(CI_OF(vi)->hi)
+  __CPROVER_assigns(number == OV_ECTL_COUPLING_SET: vi->version, vi->channels, vi->rate)
+  /* only GET requests write through arg */
+  __CPROVER_assigns((arg != NULL && IS_GET(number)): __CPROVER_object_whole(arg))
+  __CPROVER_ensures(RV == 0 || RV == OV_EINVAL || RV == OV_EIMPL)
+  /* once the set-up is final every SET request is refused and changes nothing */
+  __CPROVER_ensures((vi != NULL && O_(set_in_stone) && (number & 0xf)) ==> (RV == OV_EINVAL && HI_SAME(vi)))
+  __CPROVER_ensures((vi != NULL && !KNOWN_REQ(number) && !(O_(set_in_stone) && (number & 0xf))) ==> (RV == OV_EIMPL && HI_SAME(vi)))
+  /* a refused request never changes the rate-management settings */
+  __CPROVER_ensures((vi != NULL && RV != 0) ==> (HI_OF(vi)->managed == O_(managed) && HI_OF(vi)->bitrate_min == O_(bitrate_min) &&
+                     HI_OF(vi)->bitrate_max == O_(bitrate_max) && HI_OF(vi)->bitrate_av == O_(bitrate_av) &&
+                     HI_OF(vi)->bitrate_reservoir == O_(bitrate_reservoir)))
+  /* C14/C15: what RATEMANAGE2_SET lets through is exactly what the bitrate
+     manager's invariant needs: min <= max when both set, average between them,
+     positive damping, reservoir >= 0, bias in [0,1] */
+  /* (NaN damping / bias pass the comparisons of the validation: excluded here, noted in DESIGN) */
+  __CPROVER_ensures((vi != NULL && number == OV_ECTL_RATEMANAGE2_SET && arg != NULL && RV == 0 &&
+                     A2->bitrate_average_damping == A2->bitrate_average_damping && A2->bitrate_limit_reservoir_bias == A2->bitrate_limit_reservoir_bias) ==>
+     (A2->bitrate_average_damping > 0. && A2->bitrate_limit_reservoir_bits >= 0 &&
+      A2->bitrate_limit_reservoir_bias >= 0. && A2->bitrate_limit_reservoir_bias <= 1. &&
+      !(A2->bitrate_limit_min_kbps > 0 && A2->bitrate_limit_max_kbps > 0 && A2->bitrate_limit_min_kbps > A2->bitrate_limit_max_kbps) &&
+      !(A2->bitrate_limit_min_kbps > 0 && A2->bitrate_average_kbps > 0 && A2->bitrate_limit_min_kbps > A2->bitrate_average_kbps) &&
+      !(A2->bitrate_limit_max_kbps > 0 && A2->bitrate_average_kbps > 0 && A2->bitrate_limit_max_kbps < A2->bitrate_average_kbps) &&
+      HI_OF(vi)->bitrate_av_damp == A2->bitrate_average_damping && HI_OF(vi)->bitrate_reservoir == A2->bitrate_limit_reservoir_bits &&
+      HI_OF(vi)->bitrate_reservoir_bias == A2->bitrate_limit_reservoir_bias && HI_OF(vi)->managed == A2->management_active))
+  /* clamps */
+  __CPROVER_ensures((vi != NULL && number == OV_ECTL_LOWPASS_SET && RV == 0 && *(double *)arg == *(double *)arg) ==>
+                    (HI_OF(vi)->lowpass_kHz >= 2. && HI_OF(vi)->lowpass_kHz <= 99. && HI_OF(vi)->lowpass_altered == 1))
+  __CPROVER_ensures((vi != NULL && number == OV_ECTL_IBLOCK_SET && RV == 0 && *(double *)arg == *(double *)arg) ==>
+                    (HI_OF(vi)->impulse_noisetune >= -15. && HI_OF(vi)->impulse_noisetune <= 0.))
+  /* GET requests change no setting */
+  __CPROVER_ensures((vi != NULL && (number & 0xf) == 0) ==> HI_SAME(vi))
+#ifdef VERIF_ENFORCE_vorbis_encode_ctl
+  REACH_ENSURES(vi != NULL && number == OV_ECTL_RATEMANAGE2_SET && arg != NULL && RV == 0 && A2->bitrate_limit_min_kbps == A2->bitrate_limit_max_kbps && A2->bitrate_limit_max_kbps > 0)
+  REACH_ENSURES(vi != NULL && number == OV_ECTL_RATEMANAGE2_SET && RV == OV_EINVAL && !O_(set_in_stone))
+  REACH_ENSURES(vi != NULL && number == OV_ECTL_COUPLING_SET && RV == 0)
+  REACH_ENSURES(RV == OV_EIMPL)
+  REACH_ENSURES(vi != NULL && number == OV_ECTL_RATEMANAGE_SET && arg != NULL && RV == 0)
+#endif
+  ;
+#undef TPL
+#endif
 #endif
